@@ -1,0 +1,53 @@
+//go:build verif
+
+package graphql
+
+// Verification hook (build tag `verif` only): exposes the shape of a prepared
+// plan so that the plan-time collection can be compared with its model.
+// Add-only; not part of the public API of normal builds.
+
+// VerifPlanField is one merged field of a planned selection-set level.
+type VerifPlanField struct {
+	Key   string
+	Name  string
+	Nodes []int // Loc.Start of every merged occurrence, in collection order
+	Sub   *VerifPlanLevel
+}
+
+// VerifPlanLevel is one planned selection-set level.
+type VerifPlanLevel struct {
+	Parent  string
+	Dynamic bool // collected again at execute time (a variable-driven directive was seen)
+	Fields  []VerifPlanField
+}
+
+// VerifDumpPlan returns the plan's static structure down to maxDepth levels.
+func VerifDumpPlan(p *Plan, maxDepth int) *VerifPlanLevel {
+	if p == nil {
+		return nil
+	}
+	return verifDumpLevel(p.root, maxDepth)
+}
+
+func verifDumpLevel(sp *selectionPlan, depth int) *VerifPlanLevel {
+	if sp == nil || depth < 0 {
+		return nil
+	}
+	l := &VerifPlanLevel{Dynamic: sp.dynamic != nil}
+	if sp.parentType != nil {
+		l.Parent = sp.parentType.Name()
+	}
+	for _, fp := range sp.fields {
+		f := VerifPlanField{Key: fp.responseKey, Name: fp.fieldName}
+		for _, a := range fp.fieldASTs {
+			if a != nil && a.Loc != nil {
+				f.Nodes = append(f.Nodes, a.Loc.Start)
+			}
+		}
+		if fp.fieldDef != nil {
+			f.Sub = verifDumpLevel(fp.sub, depth-1)
+		}
+		l.Fields = append(l.Fields, f)
+	}
+	return l
+}
